@@ -21,7 +21,7 @@ sys.path.insert(0, os.path.dirname(os.path.abspath(__file__)))
 import sx  # noqa: E402
 import impl_runner as ir  # noqa: E402
 from impl_runner import (X, Point, Partial, Derivative, Differential, LocatedDifferential,  # noqa: E402
-                         outcome, show_obj, show_located, mkpoint, CATCH)
+                         outcome, show_obj, show_located, mkpoint, CATCH, DomainError, CoordinateMissing)
 
 MEMO = ('_value', '_is_fully_reduced', '_evaluation_failed', '_synthetic_partial', '_synthetic_partials')
 
@@ -274,6 +274,22 @@ def run_history(h, fresh_oracle=True):
     for j, (a, c) in enumerate(zip(w.points, w3.points)):
         if not (a == c) or repr(a) != repr(c):
             final.append({'point': j, 'used': repr(a), 'fresh': repr(c)})
+    # ... and evaluates like a fresh copy (C10's wording), at every point of the history
+    def _ev(o, q):
+        try:
+            return repr(o.at(q))
+        except DomainError:
+            return 'DOMERR'
+        except CoordinateMissing:
+            return 'COORD'
+        except Exception as ex:  # noqa: BLE001
+            return 'PYERR ' + type(ex).__name__
+    for j, (a, c) in enumerate(zip(w.pool, w3.pool)):
+        for k, q in enumerate(w3.points):
+            ra, rc = _ev(a, q), _ev(c, q)
+            if ra != rc:
+                final.append({'pool': j, 'at_point': k, 'used_value': ra, 'fresh_value': rc})
+                break
     return {'outs': outs, 'fresh': fresh, 'mutations': mutations, 'final': final}
 
 
